@@ -55,15 +55,6 @@ impl RawConnector {
             scorer_builder,
         } = RawConnectorBuilder::from_readers(right_rdr, left_rdr, cost_rdr)?;
 
-        // The number of connection ids is recovered from the row length, so at least one
-        // feature template is required.
-        if feat_template_size == 0 {
-            return Err(VibratoError::invalid_format(
-                "bigram.right/left",
-                "at least one feature is required",
-            ));
-        }
-
         // Adjusts to a multiple of SIMD_SIZE for AVX2 compatibility.
         //
         // In nightly: feat_template_size = feat_template_size.next_multiple_of(SIMD_SIZE);
@@ -243,6 +234,15 @@ impl RawConnectorBuilder {
             }
             feat_template_size = feat_template_size.max(feat_ids.len());
             left_feat_ids_tmp.push(feat_ids);
+        }
+
+        // The connectors recover the number of connection ids from the row length, so at least
+        // one feature template is required.
+        if feat_template_size == 0 {
+            return Err(VibratoError::invalid_format(
+                "bigram.right/left",
+                "at least one feature is required",
+            ));
         }
 
         Ok(Self::new(
